@@ -221,8 +221,8 @@ def run(F, rep, tier="quick", extra=None, only=None):
             rep.ob("SHAPE-FWD", key, not problems, "; ".join(problems) if problems else "passes %s_blend to blend_separable(src…, dst…)" % mode, F.loc(b))
     rep.floor("Blend dispatchers", n_disp, 33)
 
-    pd_paths = set()
-    S3 = Session(F)
+    pd_paths = {b["path"] for b in pre_impl[1].values()}
+    S3 = Session(F, no_inline=pd_paths)
     n_disp = 0
     for im, ms in impl_methods(F, "blend::compose::Compose"):
         ty = im["self_s"]
